@@ -1,5 +1,5 @@
 (* ConnProofs.v — C06: stream decoding never panics and never needs more than one frame buffered. *)
-From Rdest Require Import Base BaseProofs Consts Wire Conn.
+From Rdest Require Import Base BaseProofs Consts Wire Conn WireProofs.
 From Coq Require Import ZifyBool ZifyN ZifyNat.
 Open Scope N_scope.
 
@@ -22,13 +22,12 @@ Proof.
   { intros i H. unfold nthN in H. apply nth_error_None in H. unfold len. lia. }
   destruct (nthN buf 4) as [id|] eqn:N4; [|specialize (HN 4 N4); lia].
   destruct (nthN buf 0) as [pl|] eqn:N0; [|specialize (HN 0 N0); lia]. clear HN.
-  destruct (negb (id =? 84) && (65536 <? rd32 buf 0)) eqn:E4; [exact I|].
+  change Frame_handshake_by_prefix with true. change handshake_prefix with 323119476. cbn [negb orb].
   unfold dispatch, wrong_len. unfold_consts. cbn [Wire_wrong_length_is_error].
   set (L := rd32 buf 0) in *.
   repeat match goal with
          | |- context [if ?c then _ else _] => destruct c eqn:?
-         end; try exact I; try lia;
-    try (apply andb_false_iff in E4; destruct E4 as [E4|E4]; [apply negb_false_iff in E4|]; lia).
+         end; try exact I; try lia.
 Qed.
 
 (* Connection::parse_frame never panics on any buffer ... *)
@@ -103,15 +102,17 @@ Proof.
   replace (len buf + len x <? 4 + 1) with false by lia.
   rewrite (nthN_app_l buf x 4) by lia. rewrite (nthN_app_l buf x 0) by lia.
   destruct (nthN buf 4) as [id|]; [|fin]. destruct (nthN buf 0) as [pl|]; [|fin].
-  destruct (negb (id =? 84) && (65536 <? L)) eqn:E4; [fin|].
+  change Frame_handshake_by_prefix with true in *. change handshake_prefix with 323119476 in *. cbn [negb orb] in *.
   unfold dispatch, wrong_len in *. unfold_consts. cbn [Wire_wrong_length_is_error] in *.
   change (len Handshake_PROTOCOL_ID) with 19 in *.
   set (A := len buf) in *. set (A' := A + len x).
   assert (HA : A <= A') by (unfold A'; lia).
-  destruct (id =? 84).
-  { destruct (pl =? 19); [|fin]. destruct (A <? 68) eqn:EA; [fin|].
+  destruct (id =? 84); cbn [andb negb].
+  { destruct (L =? 323119476); cbn [andb negb]; [|destruct (65536 <? L); fin].
+    destruct (pl =? 19); [|fin]. destruct (A <? 68) eqn:EA; [fin|].
     replace (A' <? 68) with false by lia. rewrite !slice_app_l by (unfold A in *; lia).
     destruct (bytes_eqb (slice buf 1 19) _) ; fin. }
+  destruct (65536 <? L) eqn:E4; [fin|].
   destruct (id =? 0). { destruct (L =? 1) ; fin. }
   destruct (id =? 1). { destruct (L =? 1) ; fin. }
   destruct (id =? 2). { destruct (L =? 1) ; fin. }
@@ -344,4 +345,36 @@ Proof.
     + exists ms1, SBad, (tl1 ++ concat cs). split.
       * rewrite app_assoc. apply dec_app_bad; assumption.
       * reflexivity.
+Qed.
+
+(* ---- unknown ids, stated without reference to the decoder's own decisions ------------------------- *)
+(* a complete message whose id is none of the nine BEP3 ids (0..8) and whose length prefix is within the frame bound
+   is skipped whole: the decoder continues at the first byte after it.  This includes id 84 ('T'), the byte by which
+   the pinned Frame::parse recognised a handshake. *)
+Theorem unknown_id_is_skipped a b c d id body x :
+  Frame_handshake_by_prefix = true ->
+  let L := unbe32 a b c d in
+  1 <= L <= 65536 -> 8 < id -> 1 + len body = L ->
+  parse_frame (a :: b :: c :: d :: id :: body ++ x) = PUnknown id (4 + L) /\
+  conn_parse (a :: b :: c :: d :: id :: body ++ x) = PSkip x.
+Proof.
+  intros _ L HL Hid Hb.
+  assert (P : parse_frame (a :: b :: c :: d :: id :: body ++ x) = PUnknown id (4 + L)).
+  { rewrite parse_frame_cons5. cbv zeta. fold L.
+    replace (L =? 0) with false by lia.
+    destruct (id =? 84) eqn:E84; cbn [andb negb].
+    - replace (L =? 323119476) with false by lia. cbn [negb]. replace (65536 <? L) with false by lia. reflexivity.
+    - replace (65536 <? L) with false by lia.
+      unfold dispatch. unfold_consts. rewrite E84.
+      replace (id =? 0) with false by lia. replace (id =? 1) with false by lia. replace (id =? 2) with false by lia.
+      replace (id =? 3) with false by lia. replace (id =? 4) with false by lia. replace (id =? 5) with false by lia.
+      replace (id =? 6) with false by lia. replace (id =? 7) with false by lia. replace (id =? 8) with false by lia.
+      reflexivity. }
+  split; [exact P|].
+  unfold conn_parse. rewrite P.
+  assert (Hlen : len (a :: b :: c :: d :: id :: body ++ x) = 4 + L + len x).
+  { unfold len in *. cbn [length]. rewrite app_length. lia. }
+  rewrite Hlen. replace (4 + L + len x <? 4 + L) with false by lia.
+  f_equal. replace (N.to_nat (4 + L)) with (5 + length body)%nat by (unfold len in Hb; lia).
+  cbn [skipn Nat.add]. rewrite skipn_app, skipn_all, Nat.sub_diag. reflexivity.
 Qed.
